@@ -72,7 +72,14 @@ theorem coalesce_scans (sem : Sem) (o : Oracle) (cfg : Cfg) (m : Manifest) (w : 
   unfold coalesce
   generalize gatherAll sem o m cfg w = r1 at h1 ⊢
   obtain ⟨w1, e1⟩ := r1
-  cases e1 <;> exact h1.scans
+  cases e1 with
+  | error cl => exact h1.scans
+  | ok bodies =>
+    simp only []
+    have h2 := coalCalls_ro sem o cfg w1
+    generalize coalCalls sem o cfg w1 = r2 at h2 ⊢
+    obtain ⟨w2, e2⟩ := r2
+    cases e2 <;> exact h2.scans.trans h1.scans
 
 theorem indexManifest_scans (o : Oracle) (m : Manifest) (w : W) (c : Ctl) :
     (indexManifest o m w c).1.e.scans = w.e.scans := by
